@@ -384,9 +384,19 @@ pub fn hash(r: &mut Rng, n: u64, x: &mut Exec, sink: &mut Sink, which: &str) {
         let mut qs: Vec<Vec<u8>> = Vec::new();
         for (i, nm) in names.iter().enumerate() { if i > 0 && (names.len() < 14 || r.chance(1, 4) || special.contains(nm)) { qs.push(nm.clone()); } }
         qs.extend(absent);
-        for q in qs {
+        for q in qs.iter() {
             sink.run(x, &json!({"op": if which == "gnu" { "gnu_find" } else { "sysv_find" }, "class":class,"es":es,
-                "hashslot":"h","symslot":"sy","strslot":"st","name":bytes_val(&q),"wf":wf,"first":first}));
+                "hashslot":"h","symslot":"sy","strslot":"st","name":bytes_val(q),"wf":wf,"first":first}));
+        }
+        // the GNU table's header is a public field: lookups after the caller wrote boundary values into it
+        if which == "gnu" && !qs.is_empty() && r.chance(1, 2) {
+            for _ in 0..3 {
+                let f = *r.pick(&["nbucket", "table_start_idx", "nbloom", "nshift"]);
+                let v = *r.pick(&[0u64, 0, 1, 2, 31, 32, 33, 63, 64, 65, 0x7fff_ffff, 0x8000_0000, 0xffff_ffff]);
+                let q = r.pick(&qs).clone();
+                sink.run(x, &json!({"op":"gnu_find","class":class,"es":es,"hashslot":"h","symslot":"sy","strslot":"st",
+                    "name":bytes_val(&q),"wf":false,"first":first,"hdr_edit":[[f, w4(v as u32)]]}));
+            }
         }
     }
 }
